@@ -226,6 +226,120 @@ Definition product_kernel (k1 : vec -> vec -> T) (d1 : nat) (k2 : vec -> vec -> 
   k1 (firstn d1 x) (firstn d1 y) * k2 (skipn d1 x) (skipn d1 y).
 Definition kmatrix (k : vec -> vec -> T) (X1 X2 : list vec) : mat :=
   map (fun a => map (fun b => k a b) X2) X1.
+(* ---- kernel objects: forward, diagonal and the diagonal_depends_on_X flag ---------------------- *)
+(* k_diag is KernelFunction.diagonal for ONE input row (diagonal(X) = map k_diag X);
+   k_dep is diagonal_depends_on_X() *)
+Record kern := mkK { k_fwd : vec -> vec -> T; k_diag : vec -> T; k_dep : bool }.
+Definition kdiagonal (k : kern) (X : list vec) : vec := map (k_diag k) X.
+
+(* Matern52: diagonal = covariance scale for every row, does not depend on X *)
+Definition kmatern (ib : vec) (cs jit : T) : kern := mkK (matern52 ib cs jit) (fun _ => o1 * cs) false.
+(* ProductKernelFunction: diag1 * diag2; depends on X if ANY factor does *)
+Definition kproduct (k1 : kern) (d1 : nat) (k2 : kern) : kern :=
+  mkK (product_kernel (k_fwd k1) d1 (k_fwd k2))
+      (fun x => k_diag k1 (firstn d1 x) * k_diag k2 (skipn d1 x))
+      (k_dep k1 || k_dep k2).
+(* RangeKernelFunction *)
+Definition krange (k : kern) (start len : nat) : kern :=
+  mkK (range_kernel (k_fwd k) start len) (fun x => k_diag k (slice start len x)) (k_dep k).
+(* WarpedKernel: diagonal warps its input first iff the inner diagonal depends on X *)
+Definition kwarped (k : kern) (jit : T) (blocks : list wblock) : kern :=
+  mkK (warped_kernel (k_fwd k) jit blocks)
+      (fun x => k_diag k (if k_dep k then apply_warpings jit blocks x else x))
+      (k_dep k).
+(* ExponentialDecayResourcesKernelFunction over inputs (x, r): x = first dx coordinates, r = coordinate dx;
+   mux = mean_x (a function of x); kappa(r) = (beta / (r + beta))^alpha, beta = alpha / mean_lam *)
+Definition kappa (alpha mean_lam r : T) : T :=
+  npow ((alpha / mean_lam) / (r + alpha / mean_lam)) alpha.
+Definition expdecay_fwd (kx : kern) (dx : nat) (mux : vec -> T) (alpha mean_lam gamma delta : T) (x y : vec) : T :=
+  let cx := firstn dx x in let cy := firstn dx y in
+  let rx := nth dx x z0 in let ry := nth dx y z0 in
+  let k1 := kappa alpha mean_lam rx in let k2 := kappa alpha mean_lam ry in
+  let k12 := kappa alpha mean_lam (rx + ry) in
+  let p1 := gamma - mux cx * delta in let p2 := gamma - mux cy * delta in
+  let kres := p1 * (p2 * (k12 - k1 * k2)) in
+  let tmp := (k1 + (k2 - k12 * delta)) * (z0 - delta) + o1 in
+  k_fwd kx cx cy * tmp + kres.
+Definition expdecay_diag (kx : kern) (dx : nat) (mux : vec -> T) (alpha mean_lam gamma delta : T) (x : vec) : T :=
+  let cx := firstn dx x in let rx := nth dx x z0 in
+  let k1 := kappa alpha mean_lam rx in
+  let k2r := kappa alpha mean_lam (rx * two) in
+  let p1 := gamma - mux cx * delta in
+  let kres := (k2r - k1 * k1) * (p1 * p1) in
+  let tmp := (k1 * two - k2r * delta) * (z0 - delta) + o1 in
+  k_diag kx cx * tmp + kres.
+Definition kexpdecay (kx : kern) (dx : nat) (mux : vec -> T) (alpha mean_lam gamma delta : T) : kern :=
+  mkK (expdecay_fwd kx dx mux alpha mean_lam gamma delta) (expdecay_diag kx dx mux alpha mean_lam gamma delta) true.
+(* ExponentialDecayResourcesMeanFunction *)
+Definition expdecay_mean (dx : nat) (mux : vec -> T) (alpha mean_lam gamma delta : T) (x : vec) : T :=
+  let cx := firstn dx x in
+  mux cx + kappa alpha mean_lam (nth dx x z0) * (gamma - mux cx * delta).
+
+(* kernel expressions (what the driver builds from the real kernel objects) *)
+Inductive kexpr :=
+  | KBase (k : kern)
+  | KMat (ib : vec) (cs jit : T)
+  | KProd (a : kexpr) (d1 : nat) (b : kexpr)
+  | KRange (a : kexpr) (start len : nat)
+  | KWarp (a : kexpr) (jit : T) (blocks : list wblock)
+  | KExpD (a : kexpr) (dx : nat) (mu alpha mean_lam gamma delta : T).
+Fixpoint keval (e : kexpr) : kern :=
+  match e with
+  | KBase k => k
+  | KMat ib cs jit => kmatern ib cs jit
+  | KProd a d1 b => kproduct (keval a) d1 (keval b)
+  | KRange a s l => krange (keval a) s l
+  | KWarp a jit bs => kwarped (keval a) jit bs
+  | KExpD a dx mu al ml ga de => kexpdecay (keval a) dx (fun _ => mu) al ml ga de
+  end.
+(* ---- gp_model.py / gp_regression.py: GaussianProcessRegression as a state machine ----------------- *)
+(* hyper-parameters (inverse bandwidths broadcast to d entries) and a data set with ONE target column
+   (a 1-D target vector of shape (n,) is this n x 1 case) *)
+Record gparams := mkGP { gp_ib : vec; gp_cs : T; gp_mean : T; gp_noise : T }.
+Record gdata := mkGD { gd_X : list vec; gd_y : vec }.
+(* likelihood.get_posterior_state(data): GaussProcPosteriorState for the current parameters
+   (AddJitterOp's search is not modelled here: sigsq = noise) *)
+Definition gp_sysmat (jit : T) (p : gparams) (d : gdata) : mat :=
+  add_diag (kernel_matrix (gp_ib p) (gp_cs p) jit (gd_X d) (gd_X d)) (gp_noise p).
+Definition gp_post (jit : T) (p : gparams) (d : gdata) : mat * list vec :=
+  cholesky_computations (kernel_matrix (gp_ib p) (gp_cs p) jit (gd_X d) (gd_X d)) (gp_noise p)
+                        [gd_y d] (map (fun _ => gp_mean p) (gd_X d)).
+(* the model object: live parameters + the posterior state (with the data it was computed for) *)
+Record gmodel := mkGM { gm_params : gparams; gm_state : option (gdata * (mat * list vec)) }.
+(* operations. GFit: [prepared] = parameters after on_fit_start / reset_params, [fitted] = what the optimiser
+   returns (None = every restart failed: parameters stay as prepared); both are oracles.
+   GReset: the initial values; GSet: set_params; GRecompute: recompute_states(data). *)
+Inductive gop :=
+  | GFit (d : gdata) (prepared : gparams) (fitted : option gparams)
+  | GSet (p : gparams)
+  | GReset (p0 : gparams)
+  | GRecompute (d : gdata).
+Definition gstep (jit : T) (m : gmodel) (o : gop) : gmodel :=
+  match o with
+  | GFit d prepared fitted =>
+      let p := match fitted with Some p => p | None => prepared end in
+      mkGM p (Some (d, gp_post jit p d))           (* _recompute_states(data) always runs *)
+  | GSet p => mkGM p (gm_state m)
+  | GReset p0 => mkGM p0 (gm_state m)
+  | GRecompute d => mkGM (gm_params m) (Some (d, gp_post jit (gm_params m) d))
+  end.
+Definition grun (jit : T) (m : gmodel) (ops : list gop) : gmodel := fold_left (gstep jit) ops m.
+Definition is_compute (o : gop) : bool :=
+  match o with GFit _ _ _ => true | GRecompute _ => true | _ => false end.
+Definition op_data (o : gop) : option gdata :=
+  match o with GFit d _ _ => Some d | GRecompute d => Some d | _ => None end.
+(* GaussianProcessModel.predict: kernel vectors between the state's features and the test inputs under the
+   LIVE parameters, against the stored factor *)
+Definition gp_kcols (jit : T) (p : gparams) (d : gdata) (Xt : list vec) : list vec :=
+  map (fun xt => map (fun x => matern52 (gp_ib p) (gp_cs p) jit x xt) (gd_X d)) Xt.
+Definition gpredict (jit floor : T) (m : gmodel) (Xt : list vec) : option (list vec * vec) :=
+  match gm_state m with
+  | None => None
+  | Some (d, (L, P)) =>
+      let p := gm_params m in
+      Some (predict_posterior_marginals L P (gp_kcols jit p d Xt) (map (fun _ => gp_mean p) Xt)
+                                        (map (fun _ => o1 * gp_cs p) Xt) floor)
+  end.
 End Generic.
 
 Arguments map2 {A B C} f a b.
